@@ -47,6 +47,20 @@ func generate(w *mon.W) {
 	rng := gen.RNG(w.Seed, "c10")
 	g := &gen.Syn{Rng: rng}
 	n := w.Pick(12_000, 250_000)
+	const head = "T | where s == \""
+	for _, boundary := range []int{32, 64, 128, 256, 512, 1024, 2048, 4096, 8192, 16384} {
+		for start := boundary - 6; start <= boundary+2; start++ {
+			for _, ch := range []string{"é", "日", "😊"} {
+				for _, tail := range []string{"\" | bogus", "\" )", "\"\n| where (", "' + ", "éé\" | take 1.5"} {
+					// the multi-byte character starts at byte offset `start`
+					s := head + strings.Repeat("a", start-len(head)) + ch + tail
+					ms := mon.Str(s)
+					c := &Case{Raw: &ms}
+					w.Do("long|"+s, func(r *mon.R) { Check(c, r) })
+				}
+			}
+		}
+	}
 	mrng := gen.RNG(w.Seed, "c10mut")
 	for _, kind := range gen.WideKinds {
 		for _, n := range gen.WideSizes {
